@@ -34,6 +34,39 @@ pub fn corpus() -> Vec<Opts> {
     compute_corpus()
 }
 
+/// conventional levels of the corpus (same indices as in `corpus()`): for these the reference
+/// scanner predicts the outcome class independently of the implementation
+pub fn corpus_levels() -> Vec<(usize, crate::conv::Level)> {
+    let mut out = vec![];
+    let seed = 0;
+    let mut tails = vec![crate::conv::Tail::None];
+    tails.extend(crate::fam::pos_tails().into_iter().take(3));
+    tails.extend(crate::fam::cmd_tails(seed, true, true).into_iter().take(6));
+    let mut k = 0;
+    for (i, l) in crate::fam::conventional(2, &tails, seed).into_iter().enumerate() {
+        if i % 37 == 0 {
+            let mut l = l;
+            if i % 2 == 0 {
+                l.version = Some("3.1.4".into());
+            }
+            if k % 3 == 1 {
+                set_usage_fallback(&mut l);
+            }
+            out.push((k, l));
+            k += 1;
+        }
+    }
+    out
+}
+fn set_usage_fallback(l: &mut crate::conv::Level) {
+    l.usage_fallback = true;
+    if let crate::conv::Tail::Cmds { cmds, .. } = &mut l.tail {
+        for c in cmds {
+            set_usage_fallback(&mut c.level);
+        }
+    }
+}
+
 /// the corpus: every mechanism once or twice
 pub fn compute_corpus() -> Vec<Opts> {
     let mut out: Vec<Opts> = vec![];
@@ -42,14 +75,9 @@ pub fn compute_corpus() -> Vec<Opts> {
     let mut tails = vec![crate::conv::Tail::None];
     tails.extend(crate::fam::pos_tails().into_iter().take(3));
     tails.extend(crate::fam::cmd_tails(seed, true, true).into_iter().take(6));
-    for (i, l) in crate::fam::conventional(2, &tails, seed).into_iter().enumerate() {
-        if i % 37 == 0 {
-            let mut l = l;
-            if i % 2 == 0 {
-                l.version = Some("3.1.4".into());
-            }
-            out.push(l.to_opts());
-        }
+    // (every third of them with fallback_to_usage on all levels)
+    for (_, l) in corpus_levels() {
+        out.push(l.to_opts());
     }
     // general shapes, adjacent groups, documented family (descr/header/footer, groups)
     out.extend(crate::shape::shapes(2, seed).into_iter().step_by(53));
@@ -158,7 +186,7 @@ fn viol(rule: &str, unit: &Value, id: usize, arg0: &[u8], argv: &[Tok], expected
     Violation { property: "C11".into(), rule: rule.into(), sig, unit: unit.clone(), case: json!({"id": id, "arg0": Tok(arg0.to_vec()), "argv": argv}), expected, observed: observed.chars().take(700).collect(), size: argv.len() * 100 + argv.iter().map(|t| t.0.len()).sum::<usize>() }
 }
 
-fn check_case(unit: &Value, id: usize, o: &Opts, p: &bpaf::OptionParser<Val>, arg0: &[u8], argv: &[Tok], ctx: &mut Ctx) {
+fn check_case(unit: &Value, id: usize, o: &Opts, level: Option<&crate::conv::Level>, p: &bpaf::OptionParser<Val>, arg0: &[u8], argv: &[Tok], ctx: &mut Ctx) {
     ctx.begin_case(|| json!({"id": id, "arg0": Tok(arg0.to_vec()), "argv": argv}));
     ctx.s.evaluations += 1;
     ctx.s.transitions += 1;
@@ -179,6 +207,30 @@ fn check_case(unit: &Value, id: usize, o: &Opts, p: &bpaf::OptionParser<Val>, ar
             return;
         }
     };
+    // independent oracle for the conventional part of the corpus: the outcome class the
+    // declared grammar prescribes (value / stderr failure / usage on stdout)
+    if let Some(level) = level {
+        let model = crate::conv::Model::new(level);
+        let want = match model.run(argv, &crate::conv::Env::new()) {
+            crate::conv::Out::Ok(_) => Some("value"),
+            crate::conv::Out::Fail => Some("stderr"),
+            crate::conv::Out::Usage => Some("stdout"),
+            crate::conv::Out::Unspec(_) => None,
+        };
+        let got = match &raw {
+            Ok(_) => "value",
+            Err(bpaf::ParseFailure::Stdout(..)) => "stdout",
+            Err(bpaf::ParseFailure::Completion(_)) => "completion",
+            Err(bpaf::ParseFailure::Stderr(_)) => "stderr",
+        };
+        if let Some(w) = want {
+            if w != got && !argv.iter().any(|t| t.0.starts_with(b"--bpaf-complete")) {
+                ctx.violation(viol("outcome-class-follows-the-declared-grammar", unit, id, arg0, argv, format!("class {}", w), format!("class {}", got)));
+                return;
+            }
+            ctx.count("classes-confirmed-by-the-reference-scanner");
+        }
+    }
     let width = o.cfg.max_width.unwrap_or(100);
     let (exp_status, exp_out, exp_err): (i32, Option<Vec<u8>>, Option<Vec<u8>>) = match &raw {
         Ok(v) => (0, Some(format!("BODY {:?}\n", v).into_bytes()), Some(vec![])),
@@ -262,12 +314,14 @@ impl Check for C11 {
         }
         std::env::remove_var("BPAFMC_C11");
         let alpha = alphabet_for(o);
+        let levels = corpus_levels();
+        let level = levels.iter().find(|(k, _)| *k == u.id).map(|x| &x.1);
         tree(&alpha, u.len, &mut |argv| {
             ctx.s.states += 1;
-            check_case(unit, u.id, o, &p, b"app", argv, ctx);
+            check_case(unit, u.id, o, level, &p, b"app", argv, ctx);
             if argv.len() <= 1 && u.arg0_variants {
                 for a0 in ARG0S.iter().skip(1) {
-                    check_case(unit, u.id, o, &p, a0, argv, ctx);
+                    check_case(unit, u.id, o, level, &p, a0, argv, ctx);
                 }
             }
             true
@@ -281,12 +335,14 @@ impl Check for C11 {
         if let Some(o) = c.get(id) {
             if let Ok(p) = build_checked(o) {
                 std::env::remove_var("BPAFMC_C11");
-                check_case(unit, id, o, &p, &arg0.0, &argv, ctx);
+                let levels = corpus_levels();
+                let level = levels.iter().find(|(k, _)| *k == id).map(|x| &x.1);
+                check_case(unit, id, o, level, &p, &arg0.0, &argv, ctx);
             }
         }
     }
     fn rule(&self) -> String {
-        "corpus = definitions sampled at fixed strides from the conventional family (with/without version), general shapes, adjacent groups, the documented family, plus env-backed, max_width(40), fallback_to_usage + version, custom help names; every definition is compiled into the harness executable and run through the real OptionParser::run() in a child process (execve with the argument vector as bytes, argv[0] set explicitly, empty environment); inputs = every vector of the token tree over the definition's names, words, an empty item, a non-UTF-8 word, --name=\\xff, --help, --version and the completion marker; argv[0] in {plain, absolute path, relative path, name with space, non-UTF-8, empty} for vectors of length <= 1; oracle = in-process run_inner with the name taken from argv[0]'s file name: value -> stdout 'BODY <debug>' / status 0 / empty stderr; stdout -> text + newline on stdout / 0 / empty stderr, no BODY; stderr -> 'Error: ' + text on stderr / status 1 / empty stdout / non-empty message; completion -> text on stdout / 0; evaluation = one spawned process".into()
+        "corpus = definitions sampled at fixed strides from the conventional family (with/without version), general shapes, adjacent groups, the documented family, plus env-backed, max_width(40), fallback_to_usage + version, custom help names; every definition is compiled into the harness executable and run through the real OptionParser::run() in a child process (execve with the argument vector as bytes, argv[0] set explicitly, empty environment); inputs = every vector of the token tree over the definition's names, words, an empty item, a non-UTF-8 word, --name=\\xff, --help, --version and the completion marker; argv[0] in {plain, absolute path, relative path, name with space, non-UTF-8, empty} for vectors of length <= 1; oracle = (1) for the conventional part of the corpus the outcome class prescribed by the reference scanner (value / stderr failure / usage on stdout for a level with fallback_to_usage that got no items); (2) in-process run_inner with the name taken from argv[0]'s file name: value -> stdout 'BODY <debug>' / status 0 / empty stderr; stdout -> text + newline on stdout / 0 / empty stderr, no BODY; stderr -> 'Error: ' + text on stderr / status 1 / empty stdout / non-empty message; completion -> text on stdout / 0; evaluation = one spawned process".into()
     }
     fn bounds(&self, tier: Tier) -> Value {
         json!({"corpus": corpus().len(), "vector_length": tier.pick(2, 3)})
